@@ -2,6 +2,7 @@
 
 Metamorphic oracle: the replies to a scripted target flow F (and to the other traffic H) must be the same when F and H
 run alone on a fresh table and when they are randomly interleaved (wall-clock fields masked)."""
+import struct
 import time
 
 from .. import core, gen, pkt, findings, canon
@@ -13,7 +14,7 @@ from ..protos import http, rpc
 PROP = "C08"
 RULE = ("random triples (target flow F = SYN + application request in 1-4 segments + FIN|ACK; other traffic H = 1-5 other TCP "
         "flows incl. tuples differing from F in exactly one field, validated and mid-request (HTTP, RPC, STUN, SSH, SMB), "
-        "SYN/FIN|ACK/RST/bare-ACK segments on F's own tuple, rejected data segments on F's tuple before F is validated, UDP "
+        "the IPv4-mapped twin of F's endpoints, SYN/FIN|ACK/RST/bare-ACK segments on F's own tuple, ICMP / ICMPv6 error messages quoting F's segments, rejected data segments on F's tuple before F is validated, UDP "
         "requests, ARP, ICMP; a random order-preserving interleaving). Each frame's canonical reply in the interleaving is "
         "compared with its reply when F (resp. H) runs alone on a fresh table. Non-trivial = interleavings where an accepted "
         "data segment of another flow falls between two segments of F; distinct = distinct abstract interleavings (kinds, "
@@ -71,6 +72,12 @@ def one_field_relatives(rng, e, sp, dp, cfg):
     out.append((pkt.Endp(e.cmac, e.smac, bytes(c2), e.sip), sp, dp))
     out.append((pkt.Endp(gen.rnd_mac(rng), e.smac, e.cip, e.sip), (sp + 0x100) & 0xFFFF, dp))
     out.append((gen.endp(rng, cfg, not e.v6), sp, dp))
+    # the same endpoints written in the other address family (IPv4-mapped IPv6 twin of an IPv4 flow, and back)
+    if not e.v6 and not cfg.selfips:
+        m = lambda a: b"\0" * 10 + b"\xff\xff" + a
+        out.append((pkt.Endp(e.cmac, e.smac, m(e.cip), m(e.sip)), sp, dp))
+    elif e.v6 and e.cip[:12] == b"\0" * 10 + b"\xff\xff" and e.sip[:12] == e.cip[:12] and not cfg.selfips:
+        out.append((pkt.Endp(e.cmac, e.smac, e.cip[12:], e.sip[12:]), sp, dp))
     return out
 
 
@@ -116,6 +123,19 @@ def triple(ctx, cfg, forced=None):
     for _ in range(rng.randrange(0, 5)):
         fl = rng.choice([SYN, FIN | ACK, RST, ACK, SYN | PSH, RST | ACK, 0])
         noise.append((e.tcp(sp, dp, rng.getrandbits(32), rng.getrandbits(32), fl), "own:%03x" % fl))
+    # ICMP errors that quote F's own segments (either direction), as a router or the peer's stack would send them
+    for _ in range(rng.choice([0, 0, 1, 2])):
+        fwd = rng.random() < 0.5
+        qs, qd, qsp, qdp = (e.cip, e.sip, sp, dp) if fwd else (e.sip, e.cip, dp, sp)
+        quoted_l4 = struct.pack("!HHI", qsp, qdp, rng.getrandbits(32))
+        if e.v6:
+            quoted = pkt.ip6(qs, qd, 6, quoted_l4 + bytes(12))
+            body = bytes(4) + quoted
+            noise.append((e.l3(58, pkt.icmp6(e.cip, e.sip, rng.choice([1, 1, 2, 3, 4]), rng.choice([0, 1, 3, 4]), body)), "own:icmp6err"))
+        else:
+            quoted = pkt.ip4(qs, qd, 6, quoted_l4)
+            body = bytes(4) + quoted
+            noise.append((e.l3(1, pkt.icmp4(rng.choice([3, 3, 3, 11, 12, 4, 5]), rng.choice([0, 1, 2, 3, 4, 13]), body)), "own:icmp4err"))
     for _ in range(rng.randrange(0, 4)):
         oe = gen.endp(rng, cfg, rng.random() < 0.5)
         k = rng.randrange(3)
